@@ -250,7 +250,21 @@ def samp_b(repo: Repo) -> List[Ob]:
         obs.append(bad("SAMP-b", "Config.__new__", "singleton", P, None, "Config has no __new__: Config() creates independent key states"))
     else:
         rets = [n for n in walk_no_nested(nw.node) if isinstance(n, ast.Return)]
-        singleton = bool(rets) and all(r.value is not None and src(r.value) in ("cls._instance", "Config._instance") for r in rets)
+        ncfg = CFG(nw.node)
+
+        def _is_instance(r: ast.Return) -> bool:
+            if r.value is None:
+                return False
+            if src(r.value) in ("cls._instance", "Config._instance"):
+                return True
+            if isinstance(r.value, ast.Name):
+                # `cls._instance = x` … `return x`: the object just stored as the singleton
+                rn = next((nd for nd in ncfg.nodes if nd.kind == "return" and nd.ast is r), None)
+                st = {nd for nd in ncfg.nodes if nd.kind == "stmt" and isinstance(nd.ast, ast.Assign) and any(src(t) in ("cls._instance", "Config._instance") for t in nd.ast.targets)
+                      and isinstance(nd.ast.value, ast.Name) and nd.ast.value.id == r.value.id}
+                return rn is not None and bool(st) and ncfg.must_pass_through(rn, st)
+            return False
+        singleton = bool(rets) and all(_is_instance(r) for r in rets)
         obs.append((ok if singleton else bad)("SAMP-b", nw, "singleton", P, nw.node,
                    "__new__ returns the class-level singleton" if singleton else "__new__ does not always return cls._instance"))
 
@@ -294,6 +308,9 @@ def _check_getter(g: FuncInfo, P) -> Ob:
                     others = [e for e in t.elts if src(e) != "self._key"]
                     if len(stored) == 1 and len(others) == 1 and isinstance(others[0], ast.Name):
                         split_nodes[node] = others[0].id
+                    elif not stored and all(isinstance(e, ast.Name) for e in t.elts):
+                        # a, b = split(self._key); self._key = <one of them>; return <the other>
+                        split_nodes[node] = ("pair", t.elts[0].id, t.elts[1].id)
                 elif isinstance(t, ast.Name):
                     split_nodes[node] = ("array", t.id)
     rets = [n for n in cfg.nodes if n.kind == "return"]
@@ -310,6 +327,13 @@ def _check_getter(g: FuncInfo, P) -> Ob:
             if isinstance(part, str) and isinstance(v, ast.Name) and v.id == part and cfg.must_pass_through(r, {sn}):
                 # nothing re-assigns `part` or self._key between (straight-line getter): accept
                 okr = True
+            if isinstance(part, tuple) and part[0] == "pair":
+                stores = [n for n in cfg.nodes if n.kind == "stmt" and isinstance(n.ast, ast.Assign) and src(n.ast.targets[0]) == "self._key"
+                          and isinstance(n.ast.value, ast.Name) and n.ast.value.id in part[1:]]
+                if len(stores) == 1 and isinstance(v, ast.Name) and v.id in part[1:] and v.id != stores[0].ast.value.id \
+                        and cfg.must_pass_through(r, {sn}) and cfg.must_pass_through(r, set(stores)):
+                    okr = True
+                continue
             if isinstance(part, tuple):
                 # keys = split(self._key); self._key = keys[i]; return keys[j], i != j
                 arr = part[1]
